@@ -436,7 +436,16 @@ func upstreamProcsForProc(proc WorkflowProcess) map[string]WorkflowProcess {
 		}
 	}
 	for _, pip := range proc.InParamPorts() {
+		// The feeder go-routines started by FromStr() and friends disconnect
+		// themselves from the port when they are done, so take a snapshot of
+		// the remote ports under the lock that guards such disconnects
+		pip.closeLock.Lock()
+		remotePorts := []*OutParamPort{}
 		for _, rpp := range pip.RemotePorts {
+			remotePorts = append(remotePorts, rpp)
+		}
+		pip.closeLock.Unlock()
+		for _, rpp := range remotePorts {
 			if rpp.Process() == proc {
 				// Values fed with FromStr() and friends come from a feeder port
 				// that belongs to the process itself: nothing upstream of it
